@@ -44,6 +44,8 @@ type Transport struct {
 	FailRTPWrite int // fail the n-th next RTP write (1 = next); 0 = never
 	FailRTCP     bool
 	FailRTCPOnce int
+	// AllRTCP is every RTCP packet (wire bytes) that ever reached the transport; Take* does not clear it.
+	AllRTCP [][]byte
 }
 
 type rtpSink struct {
@@ -90,6 +92,7 @@ func (s *rtcpSink) Write(pkts []rtcp.Packet, _ interceptor.Attributes) (int, err
 			b = nil
 		}
 		rec.Raw = append(rec.Raw, b)
+		t.AllRTCP = append(t.AllRTCP, b)
 		n += len(b)
 	}
 	t.RTCP = append(t.RTCP, rec)
